@@ -588,6 +588,16 @@ SSendRet(c, res, cls) ==
                                         !.late = IF calls[c].nW > calls[c].nOk THEN @ ELSE SubSeq(@, 1, calls[c].nOk) \o SubSeq(@, calls[c].nOk + 2, Len(@)),
                                         !.nOk = IF calls[c].nW > calls[c].nOk THEN @ + 1 ELSE @])
 
+\* SendMsg with a message the codec refuses: a local failure, nothing is written for it and the stream is torn
+\* down (its peer is told with the stream's one reset, like after any other failed Send)
+SSendBad(c) ==
+  /\ c \in DOMAIN calls /\ calls[c].opened = "ok"
+  /\ CUpd(c, [calls[c] EXCEPT !.sendFailed = TRUE])
+SSendBadRet(c, res) ==
+  /\ c \in DOMAIN calls /\ calls[c].opened = "ok" /\ calls[c].sendFailed
+  /\ G("fault", res = "err")                    \* a message that cannot be encoded is never reported as sent
+  /\ CUpd(c, calls[c])
+
 SClose(c) ==
   /\ c \in DOMAIN calls /\ calls[c].opened = "ok"
   /\ CUpd(c, [calls[c] EXCEPT !.closeCalled = TRUE])
